@@ -381,6 +381,78 @@ func C06(r *h.Run) {
 	}
 
 	// ---- Connect end-of-stream variants ----
+	// ---- Grpc-Message values, well-formed or not, in trailers first (a panic there is
+	// recovered on the caller's goroutine), then in headers (decoded on the request
+	// goroutine: only tried for values the trailer placement survived) ----
+	msgs := []string{"", "plain", "100%", "%", "%4", "%41", "%41%", "%%%", "%%", "a%zz", "%zz%zz", "%e9", "%E9%", "disk 95%25 full, quota 100%",
+		"%25%", "%2", "ok%20ok%", "%41%4", "\xe9", "tab\there", "%00", "%0", "%C3%A9", "%c3%a9%", "%%41", "%4%41"}
+	mr := rng.Fork("grpc_message")
+	for i := 0; i < r.N(80, 1500); i++ {
+		n := 1 + mr.Intn(12)
+		b := make([]byte, n)
+		for j := range b {
+			switch mr.Intn(4) {
+			case 0:
+				b[j] = '%'
+			case 1:
+				b[j] = "0123456789abcdefABCDEFgz"[mr.Intn(24)]
+			default:
+				b[j] = byte(0x20 + mr.Intn(0x5f))
+			}
+		}
+		msgs = append(msgs, string(b))
+	}
+	for _, m := range msgs {
+		survived := true
+		for _, web := range []bool{false, true} {
+			cfg := envCfg{Proto: "grpc"}
+			if web {
+				cfg.Proto = "grpcweb"
+			}
+			hdr, _, _ := responseParts(cfg)
+			trailer := http.Header{}
+			body := h.Frame(0, []byte("m"))
+			if web {
+				body = append(body, h.Frame(0x80, []byte("grpc-message: "+m+"\r\ngrpc-status: 5\r\n"))...)
+			} else {
+				trailer["Grpc-Message"] = []string{m}
+				trailer["Grpc-Status"] = []string{"5"}
+			}
+			for _, kind := range []string{"server", "unary"} {
+				res := doCall(cfg, kind, func() *http.Response {
+					return h.NewResponse(200, hdr.Clone(), h.NewChunkBody([][]byte{body}, h.FinCleanEOF), trailer.Clone())
+				})
+				in := map[string]any{"proto": cfg.Proto, "kind": kind, "grpc_message": m, "grpc_message_hex": h.Hex([]byte(m)), "placement": "trailers"}
+				r.Eval("grpc_message", fmt.Sprint(in))
+				if !check("grpc_message", in, res) {
+					survived = false
+					continue
+				}
+				// (a unary call that got a message AND an error status reports unknown wrapping it: still a coded failure)
+				if res.err == nil || (kind == "server" && connect.CodeOf(res.err) != connect.CodeNotFound) {
+					r.Fail(h.Failure{Key: "client/status-lost", Family: "grpc_message", What: "grpc-status 5 with this grpc-message was not reported as not_found", Input: in, Actual: fmt.Sprint(res.err)})
+				}
+			}
+		}
+		if !survived {
+			continue
+		}
+		for _, proto := range []string{"grpc", "grpcweb"} {
+			cfg := envCfg{Proto: proto}
+			hdr, _, _ := responseParts(cfg)
+			hdr["Grpc-Status"] = []string{"5"}
+			hdr["Grpc-Message"] = []string{m}
+			res := doCall(cfg, "server", func() *http.Response {
+				return h.NewResponse(200, hdr.Clone(), h.NewChunkBody(nil, h.FinCleanEOF), nil)
+			})
+			in := map[string]any{"proto": proto, "kind": "server", "grpc_message": m, "grpc_message_hex": h.Hex([]byte(m)), "placement": "headers"}
+			r.Eval("grpc_message", fmt.Sprint(in))
+			if check("grpc_message", in, res) && (res.err == nil || connect.CodeOf(res.err) != connect.CodeNotFound) {
+				r.Fail(h.Failure{Key: "client/status-lost", Family: "grpc_message", What: "grpc-status 5 with this grpc-message was not reported as not_found", Input: in, Actual: fmt.Sprint(res.err)})
+			}
+		}
+	}
+
 	ends := []string{`{}`, `{"error":null}`, `{"error":{"code":"not_found","message":"m"}}`, `{"error":{"message":"boom"}}`, `{"error":{}}`, `{"error":{"code":""}}`, `{"error":{"code":"code_0"}}`,
 		`{"error":{"code":"code_17"}}`, `{"error":{"code":"bogus"}}`, `{"error":"x"}`, `{"metadata":{"x-foo":["bar"]}}`, `{"metadata":{"X-Foo":["bar"],"x-foo":["baz"]}}`, `{"metadata":"x"}`, `not json`, ``, `[]`, `{"error":{"code":"internal"},"metadata":{"x-a":["1","2"]}}`}
 	for _, e := range ends {
